@@ -69,7 +69,12 @@ def gen_points(g):
         F = g.integers(0, 5, (n, d)).astype(float); F[:, int(g.integers(d))] *= float(g.choice([1e-9, 1e-10, 1e-12]))
     else:
         base = g.normal(size=(max(1, n // 3), d)); F = base[g.integers(0, len(base), n)]
-    wt = g.choice([-2.5, -1.0, 1.0, 2.5], d)
+    wt = g.choice([-2.5, -1.0, 1.0, 2.5, 0.5], d)
+    # integer-valued point sets are also handed over in the integer / single-precision dtypes a caller may hold them in
+    if numpy.all(F == numpy.floor(F)) and numpy.abs(F).max() < 15 and g.random() < 0.4:
+        dts = ["int8", "int16", "int32", "int64", "float32"] + (["uint8", "uint16", "uint32", "uint64"] if F.min() >= 0 else [])
+        dt = str(g.choice(dts))
+        F = F.astype(dt); cls += "/" + ("unsigned integer points" if dt.startswith("u") else "signed integer points" if dt.startswith("i") else "float32 points")
     return cls, F, wt
 
 
@@ -94,7 +99,7 @@ def case_pareto(ctx, c):
     w = {"fmat": F, "wt": wt, "mask": m, "index": ix}
     ctx.check("C19.pareto.pure", numpy.array_equal(Fcall, F) and numpy.array_equal(wcall, wt), site, "the caller's point and weight arrays are not modified", cls,
               witness=dict(w, fmat_after=Fcall), coords=coords)
-    Fw = (F * wt[None, :]).tolist()
+    Fw = (F.astype(float) * wt[None, :]).tolist()
     ctx.check("C19.pareto.forms", m.dtype == bool and m.shape == (n,) and numpy.array_equal(numpy.flatnonzero(m), numpy.sort(ix))
               and len(set(numpy.asarray(ix).tolist())) == len(ix), site, "mask form == index form", cls, witness=w, coords=coords)
     marked = [i for i in range(n) if m[i]]
@@ -110,14 +115,16 @@ def case_pareto(ctx, c):
     perm = g.permutation(n)
     try:
         m2 = is_pareto_efficient(F[perm].copy(), wt.copy(), True)
-        eff2 = {tuple(r) for r in (F[perm][m2] * wt[None, :]).tolist()}
+        eff2 = {tuple(r) for r in (F[perm][m2].astype(float) * wt[None, :]).tolist()}
         ctx.check("C19.pareto.order", eff2 == eff, site, "efficient set invariant to point order", cls,
                   witness=dict(w, perm=perm), coords=coords)
     except Exception as e:
         ctx.violation("C19.pareto.returns", site, "raised %s" % type(e).__name__, cls + "/permuted", witness=w, coords=coords)
     # positive rescaling of one objective (power of two: exact in floating point)
     j = int(g.integers(d)); s = float(g.choice([0.5, 2.0, 8.0, 0.125]))
-    F3 = F.copy(); F3[:, j] *= s
+    if F.dtype.kind in "iu":
+        s = float(g.choice([2, 4, 8]))       # stays exact and in range of every integer dtype used (|F| < 15)
+    F3 = F.copy(); F3[:, j] = (F3[:, j] * s).astype(F.dtype)
     try:
         m3 = is_pareto_efficient(F3, wt.copy(), True)
         ctx.check("C19.pareto.rescale", {tuple(Fw[i]) for i in range(n) if m3[i]} == eff, site,
@@ -133,6 +140,11 @@ def case_dominates(ctx, c):
     lat = g.random() < 0.7
     o1 = g.integers(0, 3, d).astype(float) if lat else g.normal(size=d)
     o2 = o1.copy() if g.random() < 0.2 else (g.integers(0, 3, d).astype(float) if lat else g.normal(size=d))
+    ocls = ""
+    if lat and g.random() < 0.4:
+        dt = str(g.choice(["int8", "int32", "int64", "uint8", "uint16", "uint32", "uint64", "float32"]))
+        o1 = o1.astype(dt); o2 = o2.astype(dt)
+        ocls = "/" + ("unsigned integer objectives" if dt.startswith("u") else "signed integer objectives" if dt.startswith("i") else "float32 objectives")
     cvs = [-1.0, 0.0, 0.0, 1e-300, 0.5, 0.5, 2.0]
     cv1 = float(g.choice(cvs)); cv2 = float(g.choice(cvs))
     f1, f2 = cv1 <= 0.0, cv2 <= 0.0
@@ -142,6 +154,7 @@ def case_dominates(ctx, c):
         exp = f1; cls = "feasible vs infeasible"
     else:
         exp = cv1 < cv2; cls = "both infeasible"
+    exp = bool(exp); cls += ocls
     ctx.case("dominates:" + cls, o1, o2, cv1, cv2)
     if c % 211 == 0:
         ctx.sample({"fn": "dominates", "obj1": o1.tolist(), "cv1": cv1, "obj2": o2.tolist(), "cv2": cv2, "expected": exp})
@@ -208,9 +221,10 @@ def case_dist(ctx, c):
         err = float(numpy.max(numpy.abs(got - exp))) if got.shape == exp.shape else float("inf")
         ctx.maxnote("dist |got-expected|", err if err < 1e-6 else 0.0)
         ctx.check("C19.dist.definition", err <= TOL, name, "== geometric definition", icls, witness=dict(w, err=err), coords=coords)
-        try:   # positive rescaling of one objective (power of two): the front is min-max scaled, so distances must not change
-            jj = int(g.integers(d)); sc = float(g.choice([2.0 ** -30, 2.0 ** -10, 8.0, 2.0 ** 20]))
-            F4 = F.copy(); F4[:, jj] *= sc
+        # positive rescaling of one objective (power of two): the front is min-max scaled, so distances must not change
+        jj = int(g.integers(d)); sc = float(g.choice([2.0 ** -30, 2.0 ** -10, 8.0, 2.0 ** 20]))
+        F4 = F.astype(float); F4[:, jj] *= sc       # harness arithmetic stays outside the guarded call
+        try:
             got4 = numpy.asarray(fn(F4, sign.copy(), vec.copy()), dtype=float)
             err4 = float(numpy.max(numpy.abs(got4 - got))) if numpy.all(numpy.isfinite(got4)) else float("inf")
             ctx.check("C19.dist.rescale", err4 <= TOL, name, "invariant to positive rescaling of an objective", icls,
